@@ -267,6 +267,16 @@ def ext_cases(rng, tier):
     return cases, {"ext_trait_histories": len(cases)}
 
 
+def consume_cases(rng, tier):
+    """'107 <container> <tag> | calls': by-reference calls followed by a CONSUMING call, directly and through every owned kind of object (harness/prog/src/consume.rs)"""
+    cases = ["107 %d 7 | 0 5 ; 1 ; 0 9 ; 0 4294967295" % k for k in range(5)] + ["107 %d 3 | 1" % k for k in range(5)]
+    n = 20 if tier == "quick" else 600
+    for _ in range(n):
+        ops = [[0, rng.choice([0, 1, 255, 2 ** 32 - 1, rng.range(0, 100000)])] if rng.chance(2, 3) else [1] for _ in range(rng.range(1, 12))]
+        cases.append("107 %d %d | %s" % (rng.below(5), rng.range(-1000, 1000), " ; ".join(" ".join(map(str, o)) for o in ops)))
+    return cases, {"consuming_call_histories": len(cases)}
+
+
 def fwd_ir_cases(rng, tier):
     """'201 <ti> <generic> | methods': the impl that the REAL #[cglue_forward] generator emits for Fwd<O>, abstracted per method (harness/gen fwd)"""
     base, _ = ir_cases(rng, "quick")
